@@ -309,3 +309,54 @@ class ValidateNoReferenceToOwnName(Contract):
         return [Case("fields", [line], post, pre=pre, heap=heap, models=models, invariants=invs, zh={"line": inner, "name": nm}, options={"ref_fields": ("line", "name")},
                      symbols=dict(stored_by_name=by_name, name_is_placeholder=placeholder, name_is_a_text=name_is_str, n_reference_fields=nf), minimize=[nf],
                      replay=lambda w: {"target": "bounded.replay_helpers:own_name_cases"}, confirm=battery_confirm)]
+
+
+@register
+class ProcessLineQueue(Contract):
+    fn = "gfapy/lines/creators.py::Creators.process_line_queue"
+    props = ("C13", "C03")
+    fragment = "H"
+    doc = ("process_line_queue(): the version, if still unknown, becomes the guess BEFORE the first queued line is added; every line kept aside is handed to "
+           "add_line exactly once, in the order of arrival (loop invariant, every queue length); afterwards the queue is empty; if add_line refuses a line "
+           "its exception reaches the caller (the state then is the subject of the known finding on C08). Assumed: add_line does not put lines back into the "
+           "queue once the version is known (contracts AddLineVersion_gfa1 / _gfa2: no path appends to it)")
+
+    def cases(self, ctx):
+        g = ctx.gfapy
+        n, bad = z3.Int("n_queued"), z3.Int("index_of_a_line_that_is_refused")
+        known = z3.Bool("version_already_known")
+        q = z3.Const("queued_line", AII)
+        gfa = Obj(g.Gfa, "gfa")
+        v0, guess = Obj(None, "version"), Obj(None, "version_guess")
+        queue = SList(n, q, lambda t: Ref(t, g.Line))
+        j = z3.Int("j")
+        heap = {gfa.oid: {"_version": Opt(z3.Not(known), v0), "_version_guess": guess, "_line_queue": queue}, v0.oid: {}, guess.oid: {}}
+        def version_now(st):
+            v = st.attrs(gfa).get("_version")
+            return v
+        def m_add(E, st, pos, kw):
+            v = version_now(st)
+            # when a line is added the version is decided: it was known, or it is the guess by now
+            decided = z3.And(st.ghost.get("version_set_first", z3.BoolVal(True)), z3.Or(known, z3.BoolVal(v is guess)))
+            zh = dict(st.zh)
+            k_ = zh["n_added"]
+            yield ("raise", Exc(g.VersionError), [k_ == bad], st.with_ghost("version_set_first", decided))
+            zh["added"] = z3.Store(zh["added"], k_, pos[1].t)
+            zh["n_added"] = k_ + 1
+            yield ("val", None, [k_ != bad], st.with_zh(zh).with_ghost("version_set_first", decided))
+        models = {ctx.fn("gfapy/lines/creators.py::Creators.add_line"): m_add}
+        def inv(i, st):
+            return z3.And(0 <= i, i <= n, st.zh["n_added"] == i, z3.ForAll([j], z3.Implies(z3.And(0 <= j, j < i), st.zh["added"][j] == q[j])),
+                          z3.Or(bad < 0, bad >= i))
+        invs = {("Creators.process_line_queue", 0): dict(inv=inv, modheap=["added", "n_added"])}
+        def post(kd, v, st):
+            ver = version_now(st)
+            ver_ok = z3.If(known, z3.BoolVal(ver is v0 or (isinstance(ver, Opt) and ver.val is v0)), z3.BoolVal(ver is guess))
+            first = st.ghost.get("version_set_first", z3.BoolVal(True))
+            if kd == "raise":
+                return z3.And(z3.BoolVal(v.cls is g.VersionError), 0 <= bad, bad < n, st.zh["n_added"] == bad, first, ver_ok)
+            lq = st.attrs(gfa).get("_line_queue")
+            return z3.And(ver_ok, first, st.zh["n_added"] == n, z3.ForAll([j], z3.Implies(z3.And(0 <= j, j < n), st.zh["added"][j] == q[j])),
+                          z3.BoolVal(isinstance(lq, list) and lq == []), z3.Or(bad < 0, bad >= n))
+        return [Case("queue", [gfa], post, pre=[n >= 0], heap=heap, zh={"added": z3.K(I, z3.IntVal(-1)), "n_added": z3.IntVal(0)}, models=models, invariants=invs,
+                     symbols=dict(n_queued=n, version_already_known=known, index_of_a_line_that_is_refused=bad), minimize=[n])]
